@@ -112,7 +112,15 @@ struct Server {
 }
 impl Server {
     fn start(script: UrlScript, chunks: Vec<Vec<u8>>, conc: Conc) -> Server {
-        let listener = TcpListener::bind("127.0.0.1:0").expect("bind loopback");
+        // thousands of short-lived listeners: the kernel may briefly have no free port while old sockets sit in TIME_WAIT
+        let mut listener = None;
+        for _ in 0..600 {
+            match TcpListener::bind("127.0.0.1:0") {
+                Ok(l) => { listener = Some(l); break; }
+                Err(_) => std::thread::sleep(Duration::from_millis(100)),
+            }
+        }
+        let listener = listener.expect("bind loopback (no free port for 60 s)");
         listener.set_nonblocking(true).unwrap();
         let port = listener.local_addr().unwrap().port();
         let stop = Arc::new(AtomicBool::new(false));
@@ -293,7 +301,7 @@ async fn play(case: &Case, n: usize, conc: Conc, root: &Path) -> Observed {
     let urls: Vec<String> = servers.iter().map(|s| format!("http://127.0.0.1:{}/sub/", s.port)).collect();
     let supplier = HttpSymbolSupplier::new(urls, cache.clone(), tmp.clone(), vec![], Duration::from_secs(20));
     let m = module("lib.so", "lib.so");
-    let wait = if case.pc == "dropped" { Duration::from_millis(250) } else { Duration::from_secs(15) };
+    let wait = if case.pc == "dropped" { Duration::from_millis(250) } else { Duration::from_secs(40) };
     let mut obs = Observed { ok: false, dropped: false, hung: false, url: None, sym_debug: String::new(), file_path: None, requests: vec![], ports: servers.iter().map(|s| s.port).collect(), bodies };
     if case.kind == "sym" && !conc.via_file {
         match tokio::time::timeout(wait, supplier.locate_symbols(&m)).await {
@@ -371,7 +379,7 @@ fn main() {
                 }
             }
             let results: Vec<(usize, Conc, Vec<(String, Value)>, String)> = rt.block_on(async {
-                let sem = Arc::new(tokio::sync::Semaphore::new(24));
+                let sem = Arc::new(tokio::sync::Semaphore::new(12));
                 let mut hs = Vec::new();
                 for (i, k, conc) in jobs {
                     let case = cases[i].clone();
@@ -379,12 +387,25 @@ fn main() {
                     let sem = sem.clone();
                     hs.push(tokio::spawn(async move {
                         let _p = sem.acquire().await.unwrap();
-                        let sandbox = root.join("sandbox");
-                        std::fs::create_dir_all(&sandbox).unwrap();
-                        let obs = play(&case, n, conc, &sandbox).await;
-                        let (mm, class) = judge(&case, n, conc, &obs, &root).await;
+                        // A scenario that disagrees with the model is played again from scratch, up to three times, and reported only
+                        // if it disagrees every time: the code under test is deterministic for a scripted server, the loopback network
+                        // under load (thousands of short-lived listeners, TIME_WAIT, a starved accept thread) is not.
+                        let mut last = (vec![], String::new());
+                        let mut retried = 0u32;
+                        for attempt in 0..3 {
+                            let root = root.join(format!("try{}", attempt));
+                            let sandbox = root.join("sandbox");
+                            std::fs::create_dir_all(&sandbox).unwrap();
+                            let obs = play(&case, n, conc, &sandbox).await;
+                            last = judge(&case, n, conc, &obs, &root).await;
+                            let _ = std::fs::remove_dir_all(&root);
+                            if last.0.is_empty() { break; }
+                            retried += 1;
+                            tokio::time::sleep(Duration::from_millis(300)).await;
+                        }
                         let _ = std::fs::remove_dir_all(&root);
-                        (i, conc, mm, class)
+                        let class = if retried > 0 && last.0.is_empty() { format!("{}|replayed-after-transient-disagreement", last.1) } else { last.1 };
+                        (i, conc, last.0, class)
                     }));
                 }
                 let mut out = Vec::new();
@@ -395,7 +416,9 @@ fn main() {
             });
             for (i, conc, mm, class) in results {
                 rep.evaluations += 1;
-                rep.class(&class);
+                let mut parts = class.split('|');
+                rep.class(parts.next().unwrap());
+                if parts.next().is_some() { rep.class("replayed-after-transient-disagreement"); }
                 rep.class(&format!("conc:{}{}", if conc.mid { "mid" } else { "line" }, if conc.chunked { "+chunked" } else { "+length" }));
                 rep.nontrivial(&cases[i].raw.to_string());
                 for (fp, detail) in mm {
